@@ -878,7 +878,16 @@ impl BuiltInFunction {
                     Primitive::Int(i32) => Primitive::BigInt(*i32 as i128),
                     Primitive::BigInt(i128) => Primitive::BigInt(*i128),
                     Primitive::Byte(u8) => Primitive::BigInt(*u8 as i128),
-                    Primitive::Float(f64) => Primitive::BigInt((*f64 as i64).into()),
+                    Primitive::Float(f64) => {
+                        // 2^127 as f64
+                        const LIMIT: f64 = 170141183460469231731687303715884105728.0;
+
+                        if !f64.is_finite() || *f64 >= LIMIT || *f64 < -LIMIT {
+                            bail!("`{f64}` cannot be made into a bigint")
+                        }
+
+                        Primitive::BigInt(*f64 as i128)
+                    }
                     bad => unreachable!("{bad}"),
                 };
 
